@@ -141,3 +141,9 @@ def fl_abs(a):
 
 def fl_truthy(a):
     return z3.Not(z3.Or(is_fnone(a), z3.And(is_fin(a), fv(a) == 0)))
+
+
+# depth of a deme id: "root" -> 0, "3" -> 1, "3/0" -> 2, ...
+id_depth = z3.RecFunction("id_depth", STR, INT)
+_s = z3.Const("s", STR)
+z3.RecAddDefinition(id_depth, [_s], z3.If(STR.is_SInt(_s), 1, z3.If(STR.is_SCat(_s), id_depth(STR.shead(_s)) + 1, 0)))
